@@ -116,10 +116,9 @@ def seconds2hms(total_seconds):
     References:
         :cite:t:`vallado_2013_astro`, Section 3.6.3
     """
-    temp = total_seconds / 3600
-    hour = floor(temp)
-    minute = floor((temp - hour) * 60)
-    second = (temp - hour - minute / 60) * 3600
+    hour = floor(total_seconds / 3600)
+    minute = floor((total_seconds - hour * 3600) / 60)
+    second = max(total_seconds - hour * 3600 - minute * 60, 0.0)
 
     return hour, minute, second
 
